@@ -9,6 +9,7 @@ PLAN = {
     'C07': dict(level='proof', engines=[]),
     'C08': dict(level='proof', engines=[]),
     'C14': dict(level='proof', engines=[]),
+    'C15': dict(level='proof', engines=['frames'], assumptions=['A3', 'A4', 'A5', 'A6', 'A7']),
 }
 
 NOT_APPLICABLE = {}
